@@ -17,6 +17,8 @@ SAN_ENV = {
     # UBSan reports (once per source location and process) and continues; the driver writes a
     # "qxv-case <id>" marker to stderr before every job, which attributes each report to a job
     "UBSAN_OPTIONS": "print_stacktrace=1:halt_on_error=0",
+    # QSet/QHash iteration order must not differ between the two processes of the determinism check
+    "QT_HASH_SEED": "0",
 }
 
 
